@@ -1489,6 +1489,22 @@ def merge(left: DataFrame,
                          how)
 
 
+def _widen_integer_key_pair(l_keys, r_keys):
+    """
+    Integer key columns of different dtypes are handed to pandas in the smallest integer dtype
+    that holds every value of both (a widening, lossless cast). pandas.merge (3.0) joins a
+    sorted unsigned key column with a wider signed one after wrapping the wider values to the
+    narrower dtype, so that, for example, the uint16 key 0 matches the int64 key 65536.
+    Pairs without a common integer dtype (int64 with uint64) and all other dtypes are passed on
+    unchanged.
+    """
+    if l_keys.dtype != r_keys.dtype and l_keys.dtype.kind in 'iu' and r_keys.dtype.kind in 'iu':
+        common = np.promote_types(l_keys.dtype, r_keys.dtype)
+        if common.kind in 'iu':
+            return l_keys.astype(common, copy=False), r_keys.astype(common, copy=False)
+    return l_keys, r_keys
+
+
 def _unordered_merge(left: DataFrame,
                      right: DataFrame,
                      dest: DataFrame,
@@ -1517,11 +1533,16 @@ def _unordered_merge(left: DataFrame,
             right_df_dict[key] = f.data[:]
             right_on_keys.append(key)
         r_key = tuple(right_on_keys)
+        for l_k, r_k in zip(left_on_keys, right_on_keys):
+            left_df_dict[l_k], right_df_dict[r_k] = \
+                _widen_integer_key_pair(left_df_dict[l_k], right_df_dict[r_k])
     else:
         l_key = 'l_k'
         left_df_dict[l_key] = left_on_fields.data[:]
         r_key = 'r_k'
         right_df_dict[r_key] = right_on_fields.data[:]
+        left_df_dict[l_key], right_df_dict[r_key] = \
+            _widen_integer_key_pair(left_df_dict[l_key], right_df_dict[r_key])
 
     left_df_dict['l_i'] = np.arange(left_len, dtype=index_dtype)
     right_df_dict['r_i'] = np.arange(right_len, dtype=index_dtype)
